@@ -155,6 +155,8 @@ def __coerce__(cat, v):
         return v
     if isinstance(v, (symx.SymAngle, SymBool)):
         return v
+    if not isinstance(v, (int, float, complex, np.number, bool)):
+        return v      # foreign symbolic objects (polynomials, complex pairs) pass through untyped
     if cat == "int":
         return int(v)
     if cat == "u32":
